@@ -518,21 +518,32 @@ PROPS["C08"] = dict(
     level_note=LEVEL_NOTE,
     assumptions=["fingerprints of distinct keys differ (hash injective on the keys of a history); the duplicate-key corner is stated separately"],
 )
+def pred_c09_all(line, st):
+    """exponentiation lines (pred_c09) plus the square-root summaries of the rabin area"""
+    if line.startswith("prop.rabin sqrt"):
+        return pred_c10(line, st)
+    return pred_c09(line, st)
+
+
 PROPS["C09"] = dict(
     module="TmcgProps.C09",
-    areas=[("arith", {"quick": 600, "thorough": 30000}, [], "san")],
+    areas=[("arith", {"quick": 600, "thorough": 30000}, [], "san"),
+           ("rabin", {"quick": 1, "thorough": 1}, ["--only-sqrt", "--sqrt-primes", "300"], "san")],
     obligations=[("Tmcg.C09.powm_is_power", "full"), ("Tmcg.C09.powm_neg_is_inverse_power", "full"),
                  ("Tmcg.C09.spowm_eq_powm", "full"), ("Tmcg.C09.spowm_refusals", "full"),
                  ("Tmcg.C09.fpowm_eq_powm", "full"), ("Tmcg.C09.fspowm_eq_powm", "full"),
                  ("Tmcg.C09.fpowm_ui_eq_powm", "full"), ("Tmcg.C09.fpowm_wrong_base_refused", "full"),
                  ("Tmcg.C09.fpowm_exponent_too_large", "full"), ("Tmcg.C09.fpowm_beyond_table_is_zero", "full"),
-                 ("Tmcg.C09.baseblind_eq_powm", "full")],
-    predicate=pred_c09,
+                 ("Tmcg.C09.baseblind_eq_powm", "full"),
+                 ("Tmcg.C09.sqrtmp_sq_all", "full"), ("Tmcg.C09.sqrtmnR_sq", "full"), ("Tmcg.C09.sqrtmnFastAll_sq", "full")],
+    predicate=pred_c09_all,
     level_text="Theorems in Lean 4: every modular-exponentiation variant of the model (constant-time with dummy operations, table-based, always-multiply, unsigned, base-blinded) equals plain "
                "modular exponentiation for every base coprime to the modulus and every exponent sign; refusals are exceptions, never wrong values. Model vs real functions: exhaustive small moduli + random big cases. "
-               "Partial: square roots, interpolation, prime generators, hex conversion and the big-integer wrapper are not yet modelled.",
+               "Square roots: all three branches modulo a prime (for every non-residue draw), CRT combination modulo distinct odd primes and the fast variant for Blum moduli square back to their argument (theorems), "
+               "exhaustive over all primes below 300 with all residues and all products of two primes below 60 in every run. "
+               "Partial: interpolation is proved in the DKG model only, prime generators, back-end conversion and the big-integer wrapper are not yet covered by this check (area arith2 under construction).",
     level_note=LEVEL_NOTE + " GMP's mpz_powm/mpz_invert/mpz_jacobi are modelled and the model layer itself is compared with GMP.",
-    assumptions=["partial: sqrt / interpolation / prime generation / TMCG_Bigint not yet covered"],
+    assumptions=["partial: interpolation / prime generation / mpz<->mpi conversion / TMCG_Bigint not yet covered by this check"],
 )
 
 PROPS["C04"] = dict(
